@@ -38,7 +38,7 @@ def _scratch() -> Path:
 def _run(args, env_extra, timeout, cwd, heap="4g"):
     env = dict(os.environ)
     env.update(env_extra or {})
-    cmd = ["java", "-XX:+UseParallelGC", f"-Xmx{heap}", "-Xss256m", "-cp", JAVA_CP, "tlc2.TLC", *args]
+    cmd = ["java", "-XX:+UseParallelGC", "-XX:ParallelGCThreads=4", "-XX:TieredStopAtLevel=1" if False else "-XX:+TieredCompilation", f"-Xmx{heap}", "-Xss64m", "-cp", JAVA_CP, "tlc2.TLC", *args]
     t0 = time.time()
     try:
         p = subprocess.run(cmd, cwd=cwd, env=env, capture_output=True, text=True, timeout=timeout)
@@ -216,6 +216,33 @@ def validate(module: str, cfg: str, doc: dict, *, timeout: int = 900, workers: i
             shutil.rmtree(scratch, ignore_errors=True)
     return {"accepted": acc, "rejected": rej, "info": info, "generated": gen, "distinct": dist,
             "wall_s": round(wall, 2), "runs": runs}
+
+
+def validate_parallel(module: str, cfg: str, traces: list, *, parts: int = 8, extra: dict | None = None, timeout: int = 1500) -> dict:
+    """validate() on `parts` slices of the traces in concurrent TLC processes (each single-worker, as the register idiom needs)"""
+    from concurrent.futures import ThreadPoolExecutor
+
+    n = len(traces)
+    if n == 0:
+        return {"accepted": [], "rejected": {}, "info": {}, "generated": 0, "distinct": 0, "wall_s": 0.0, "runs": 0}
+    size = max(1, -(-n // parts))
+    slices = [(i, traces[i:i + size]) for i in range(0, n, size)]
+
+    def one(item):
+        i, part = item
+        return i, validate(module, cfg, {**(extra or {}), "traces": part}, timeout=timeout)
+    out = {"accepted": [], "rejected": {}, "info": {}, "generated": 0, "distinct": 0, "wall_s": 0.0, "runs": 0}
+    t0 = time.time()
+    with ThreadPoolExecutor(max_workers=min(parts, len(slices))) as ex:
+        for i, res in ex.map(one, slices):
+            out["accepted"] += [i + a for a in res["accepted"]]
+            out["rejected"].update({i + k: v for k, v in res["rejected"].items()})
+            out["info"].update({i + k: v for k, v in res["info"].items()})
+            out["generated"] += res["generated"]
+            out["distinct"] += res["distinct"]
+            out["runs"] += res["runs"]
+    out["wall_s"] = round(time.time() - t0, 2)
+    return out
 
 
 def evaluate(module: str, cfg: str, *, env=None, timeout: int = 600, heap="4g") -> str:
